@@ -10,6 +10,7 @@ import (
 	"sort"
 	"strings"
 	"sync"
+	"sync/atomic"
 
 	"verifharness/internal/bin"
 	"verifharness/internal/ev"
@@ -30,6 +31,32 @@ type c20Prog struct {
 	Chain   bool `json:"chain"` // task i depends on task i-1
 	FileDep bool `json:"filedep"`
 	NoMatch bool `json:"nomatch,omitempty"` // the first task also has a glob dependency that matches nothing
+	Big     int  `json:"big,omitempty"`     // every task has a further command that writes this many KiB to each stream
+	Long    bool `json:"long,omitempty"`    // docstrings and variable values are longer than a terminal line; listings also go through a pseudo terminal
+}
+
+// ncmds: commands per task
+func (p c20Prog) ncmds() int {
+	if p.Big > 0 {
+		return p.NCmds + 1
+	}
+	return p.NCmds
+}
+
+// c20Big: n KiB of numbered lines, different per stream
+func c20Big(kib int, stream string) string {
+	var sb strings.Builder
+	for i := 0; sb.Len() < kib*1024; i++ {
+		fmt.Fprintf(&sb, "%s %07d the quick brown fox jumps over the lazy dog\n", stream, i)
+	}
+	return sb.String()
+}
+
+func (p c20Prog) varVal(i int) string {
+	if p.Long {
+		return c20VarVals[i] + " " + strings.Repeat("and a value that goes on ", 5) + "end" + fmt.Sprint(i)
+	}
+	return c20VarVals[i]
 }
 
 var c20VarNames = []string{"VA", "ZED"}
@@ -47,6 +74,9 @@ func (p c20Prog) doc(i int) string {
 	if !p.Docs {
 		return ""
 	}
+	if p.Long {
+		return fmt.Sprintf("Describes %s here, %sand stops", p.names()[i], strings.Repeat("at length, ", 11))
+	}
 	return fmt.Sprintf("Describes %s here", p.names()[i])
 }
 
@@ -54,19 +84,23 @@ func (p c20Prog) cmd(t string, k int) (src, expanded, stdout, stderr string) {
 	v := ""
 	vv := ""
 	if p.NVars > 0 {
-		v, vv = "_{{.VA}}", "_"+c20VarVals[0]
+		v, vv = "_{{.VA}}", "_"+p.varVal(0)
+	}
+	if k == p.NCmds+1 && p.Big > 0 {
+		src = fmt.Sprintf("echo before_%s; cat big.out; echo after_%s; cat big.err >&2; echo %s:%d >> \"$VLOG\"", t, t, t, k)
+		return src, src, "before_" + t + "\n" + c20Big(p.Big, "out") + "after_" + t + "\n", c20Big(p.Big, "err")
 	}
 	// the texts carry printf verbs: a report that is passed through a format function would mangle them
 	// ... and text that looks like a JSON escape: a report that is post-processed as text would mangle it
 	src = fmt.Sprintf("echo OUT_%s_%d%s_100%%d%%s'\\u0026<&>' && echo ERR_%s_%d_%%v >&2 && echo %s:%d >> \"$VLOG\"", t, k, v, t, k, t, k)
-	expanded = strings.ReplaceAll(src, "{{.VA}}", c20VarVals[0])
+	expanded = strings.ReplaceAll(src, "{{.VA}}", p.varVal(0))
 	return src, expanded, fmt.Sprintf("OUT_%s_%d%s_100%%d%%s\\u0026<&>\n", t, k, vv), fmt.Sprintf("ERR_%s_%d_%%v\n", t, k)
 }
 
 func (p c20Prog) text() string {
 	var sb strings.Builder
 	for i := 0; i < p.NVars; i++ {
-		fmt.Fprintf(&sb, "%s := \"%s\"\n", c20VarNames[i], c20VarVals[i])
+		fmt.Fprintf(&sb, "%s := \"%s\"\n", c20VarNames[i], p.varVal(i))
 	}
 	sb.WriteString("\n")
 	names := p.names()
@@ -85,7 +119,7 @@ func (p c20Prog) text() string {
 			deps = append(deps, `"docs/**/*.nomatch"`)
 		}
 		fmt.Fprintf(&sb, "task %s(%s) {\n", n, strings.Join(deps, ", "))
-		for k := 1; k <= p.NCmds; k++ {
+		for k := 1; k <= p.ncmds(); k++ {
 			src, _, _, _ := p.cmd(n, k)
 			sb.WriteString("    " + src + "\n")
 		}
@@ -113,9 +147,19 @@ func c20Progs(tier string) []c20Prog {
 								if !fd && tier != "thorough" && !(nt == 2 && nc == 1) {
 									continue
 								}
-								out = append(out, c20Prog{nt, docs, def, nc, nv, chain, fd, false})
+								out = append(out, c20Prog{NTasks: nt, Docs: docs, Default: def, NCmds: nc, NVars: nv, Chain: chain, FileDep: fd})
 								if nc == 1 && nv == 0 && fd {
-									out = append(out, c20Prog{nt, docs, def, nc, nv, chain, fd, true})
+									out = append(out, c20Prog{NTasks: nt, Docs: docs, Default: def, NCmds: nc, NVars: nv, Chain: chain, FileDep: fd, NoMatch: true})
+								}
+								if nt <= 2 && nc <= 1 && nv == 0 && fd && !docs {
+									// commands with outputs larger than any pipe or copy buffer
+									for _, big := range []int{20, 300} {
+										out = append(out, c20Prog{NTasks: nt, Default: def, NCmds: nc, Chain: chain, FileDep: fd, Big: big})
+									}
+								}
+								if docs && nc == 1 && fd && (nt <= 3 || tier == "thorough") {
+									// long docstrings and values, listed on terminals of several widths
+									out = append(out, c20Prog{NTasks: nt, Docs: true, Default: def, NCmds: nc, NVars: nv, Chain: chain, FileDep: fd, Long: true})
 								}
 							}
 						}
@@ -214,7 +258,7 @@ func (p c20Prog) checkJSON(stdout string, req []string, log []string, expectSkip
 			obs = append(obs, c20Obs{"json-extra-task", fmt.Sprintf("report lists task %q which is not part of the run %v", name, req)})
 			continue
 		}
-		if skipped == seenRan[name] && p.NCmds > 0 {
+		if skipped == seenRan[name] && p.ncmds() > 0 {
 			obs = append(obs, c20Obs{"json-skipped-flag-wrong", fmt.Sprintf("task %s: skipped=%v but commands executed=%v", name, skipped, seenRan[name])})
 		}
 		if expectSkipped != nil && expectSkipped[name] != skipped {
@@ -227,8 +271,8 @@ func (p c20Prog) checkJSON(stdout string, req []string, log []string, expectSkip
 			continue
 		}
 		reportedRan = append(reportedRan, name)
-		if len(results) != p.NCmds {
-			obs = append(obs, c20Obs{"json-command-count", fmt.Sprintf("task %s has %d commands, report lists %d", name, p.NCmds, len(results))})
+		if len(results) != p.ncmds() {
+			obs = append(obs, c20Obs{"json-command-count", fmt.Sprintf("task %s has %d commands, report lists %d", name, p.ncmds(), len(results))})
 			continue
 		}
 		for k, r := range results {
@@ -248,7 +292,16 @@ func (p c20Prog) checkJSON(stdout string, req []string, log []string, expectSkip
 			sort.Strings(strs)
 			sort.Strings(wantStrs)
 			if strings.Join(strs, "\x00") != strings.Join(wantStrs, "\x00") {
-				obs = append(obs, c20Obs{"json-command-fields", fmt.Sprintf("task %s command %d: report has %q, expected interpolated text / stdout / stderr %q", name, k+1, strs, wantStrs)})
+				if len(so) > 2000 {
+					got, want := strings.Join(strs, "\x00"), strings.Join(wantStrs, "\x00")
+					d := 0
+					for d < len(got) && d < len(want) && got[d] == want[d] {
+						d++
+					}
+					obs = append(obs, c20Obs{"json-command-fields", fmt.Sprintf("task %s command %d (%d KiB per stream): the reported text / stdout / stderr have %d bytes, expected %d; first difference at offset %d: %q vs %q", name, k+1, p.Big, len(got), len(want), d, clip(got[d:]), clip(want[d:]))})
+				} else {
+					obs = append(obs, c20Obs{"json-command-fields", fmt.Sprintf("task %s command %d: report has %q, expected interpolated text / stdout / stderr %q", name, k+1, strs, wantStrs)})
+				}
 			}
 			if !haveStatus || status != 0 {
 				obs = append(obs, c20Obs{"json-status", fmt.Sprintf("task %s command %d: status %v (present=%v), expected 0", name, k+1, status, haveStatus)})
@@ -264,7 +317,7 @@ func (p c20Prog) checkJSON(stdout string, req []string, log []string, expectSkip
 	if len(want) > 0 {
 		obs = append(obs, c20Obs{"json-task-missing", fmt.Sprintf("tasks %v ran or were selected but are missing from the report %v", keys(want), reported)})
 	}
-	if p.NCmds > 0 && strings.Join(reportedRan, ",") != strings.Join(ranOrder, ",") {
+	if p.ncmds() > 0 && strings.Join(reportedRan, ",") != strings.Join(ranOrder, ",") {
 		obs = append(obs, c20Obs{"json-order", fmt.Sprintf("report lists executed tasks in order %v, commands executed in order %v", reportedRan, ranOrder)})
 	}
 	return obs
@@ -315,6 +368,29 @@ func (p c20Prog) checkListing(stdout string) []c20Obs {
 	return obs
 }
 
+// checkVars verifies `--vars` output.
+func (p c20Prog) checkVars(stdout string) []c20Obs {
+	var obs []c20Obs
+	var got []string
+	for _, l := range strings.Split(stdout, "\n") {
+		f := strings.Fields(l)
+		for i := 0; i < p.NVars; i++ {
+			if len(f) > 0 && f[0] == c20VarNames[i] {
+				got = append(got, f[0])
+				if v := strings.Join(f[1:], " "); v != p.varVal(i) {
+					obs = append(obs, c20Obs{"vars-value", fmt.Sprintf("--vars lists %s with value %q, expected %q", f[0], v, p.varVal(i))})
+				}
+			}
+		}
+	}
+	wantV := append([]string{}, c20VarNames[:p.NVars]...)
+	sort.Strings(wantV)
+	if strings.Join(got, ",") != strings.Join(wantV, ",") {
+		obs = append(obs, c20Obs{"vars-list", fmt.Sprintf("--vars lists %v, expected each variable once sorted %v: %q", got, wantV, clip(stdout))})
+	}
+	return obs
+}
+
 func c20Run(root string, p c20Prog) (obs []c20Obs, inv int) {
 	t := bin.Tree{Root: root}
 	t.Reset()
@@ -324,6 +400,10 @@ func c20Run(root string, p c20Prog) (obs []c20Obs, inv int) {
 	t.File("home/w/proj/spokfile", p.text())
 	for _, n := range p.names() {
 		t.File("home/w/proj/"+n+".txt", "v0\n")
+	}
+	if p.Big > 0 {
+		t.File("home/w/proj/big.out", c20Big(p.Big, "out"))
+		t.File("home/w/proj/big.err", c20Big(p.Big, "err"))
 	}
 	vlog := filepath.Join(ctl, "vlog")
 	env := []string{"VLOG=" + vlog, "VCTL=" + ctl}
@@ -354,22 +434,34 @@ func c20Run(root string, p c20Prog) (obs []c20Obs, inv int) {
 	o = bin.Run(proj, home, env, "--vars")
 	inv++
 	if !died(o, "--vars") {
-		var got []string
-		for _, l := range strings.Split(o.Stdout, "\n") {
-			f := strings.Fields(l)
-			for i := 0; i < p.NVars; i++ {
-				if len(f) > 0 && f[0] == c20VarNames[i] {
-					got = append(got, f[0])
-					if v := strings.Join(f[1:], " "); v != c20VarVals[i] {
-						obs = append(obs, c20Obs{"vars-value", fmt.Sprintf("--vars lists %s with value %q, expected %q", f[0], v, c20VarVals[i])})
-					}
+		add("--vars", p.checkVars(o.Stdout))
+	}
+	// the same listings on terminals of several widths
+	if p.Long {
+		for _, cols := range []int{40, 60, 80, 132} {
+			for _, a := range [][]string{{"--show"}, {"--vars"}, {}} {
+				if len(a) == 0 && p.Default {
+					continue
+				}
+				po, ok := bin.RunPty(proj, home, env, cols, a...)
+				if !ok {
+					c20NoPty.Store(true)
+					continue
+				}
+				inv++
+				what := fmt.Sprintf("%v on a %d-column terminal", a, cols)
+				if died(po, what) {
+					continue
+				}
+				if len(a) == 1 && a[0] == "--vars" {
+					add(what, p.checkVars(po.Stdout))
+				} else {
+					add(what, p.checkListing(po.Stdout))
 				}
 			}
 		}
-		wantV := append([]string{}, c20VarNames[:p.NVars]...)
-		sort.Strings(wantV)
-		if strings.Join(got, ",") != strings.Join(wantV, ",") {
-			obs = append(obs, c20Obs{"vars-list", fmt.Sprintf("--vars lists %v, expected each variable once sorted %v: %q", got, wantV, clip(o.Stdout))})
+		if l := readLog(vlog); len(l) > 0 {
+			obs = append(obs, c20Obs{"show-ran-commands", fmt.Sprintf("listing on a terminal executed commands %v", l)})
 		}
 	}
 	// no task names: default task or listing
@@ -387,7 +479,7 @@ func c20Run(root string, p c20Prog) (obs []c20Obs, inv int) {
 			for _, c := range p.closure("default") {
 				wantRan[c] = true
 			}
-			if p.NCmds > 0 && strings.Join(keys(ran), ",") != strings.Join(keys(wantRan), ",") {
+			if p.ncmds() > 0 && strings.Join(keys(ran), ",") != strings.Join(keys(wantRan), ",") {
 				obs = append(obs, c20Obs{"default-task-not-run", fmt.Sprintf("a task named default exists; without arguments tasks %v ran, expected %v", keys(ran), keys(wantRan))})
 			}
 		} else {
@@ -406,7 +498,7 @@ func c20Run(root string, p c20Prog) (obs []c20Obs, inv int) {
 		if o.Stdout != "" {
 			obs = append(obs, c20Obs{"quiet-not-quiet", fmt.Sprintf("--quiet wrote to standard output: %q", clip(o.Stdout))})
 		}
-		if p.NCmds > 0 && len(readLog(vlog)) == 0 {
+		if p.ncmds() > 0 && len(readLog(vlog)) == 0 {
 			obs = append(obs, c20Obs{"quiet-did-not-run", "--quiet run executed nothing"})
 		}
 	}
@@ -438,6 +530,9 @@ func c20Run(root string, p c20Prog) (obs []c20Obs, inv int) {
 }
 
 var c20SlotMu [64]sync.Mutex
+
+// c20NoPty: no pseudo terminal could be opened (the terminal part was skipped)
+var c20NoPty atomic.Bool
 
 func c20Check(tier string) int {
 	run := ev.NewRun("C20", tier, "model_checking", "cfgmc-c20")
@@ -476,8 +571,13 @@ func c20Check(tier string) int {
 	run.Set("evaluations", invocations)
 	run.Set("distinct_nontrivial", int64(len(progs)))
 	run.Set("outcomes", outcomes)
-	run.Set("rule", "states = programs: 1..3 tasks x docstrings y/n x a task named default y/n x 0..2 commands (each printing distinct markers to stdout and stderr and appending to a harness log) x 0..2 variables x independent/chain x file dependencies y/n; transitions = invocations of the built binary per program: --show, --vars, no arguments, --quiet, --json twice (the repeat shows skipped tasks); JSON field names are not prescribed (fields are recognised by type and content)")
-	run.Assumes("NO_COLOR=1 and a non-terminal stdout give uncoloured listings", "the --quiet --json combination is not exercised (the statement gives it two answers)")
+	run.Set("pseudo_terminal_available", !c20NoPty.Load())
+	if c20NoPty.Load() {
+		run.Set("exhaustive", false)
+		run.Set("cap", "no pseudo terminal could be opened: the listings on terminals were not explored")
+	}
+	run.Set("rule", "states = programs: 1..5 tasks x docstrings y/n x a task named default y/n x 0..2 commands (each printing distinct markers to stdout and stderr and appending to a harness log) x 0..2 variables x independent/chain x file dependencies y/n; transitions = invocations of the built binary per program: --show, --vars, no arguments, --quiet, --json twice (the repeat shows skipped tasks); further programs whose tasks have a command writing 20 KiB / 300 KiB of numbered lines to each stream (reported text compared byte for byte), and programs with docstrings and values longer than a terminal line, listed with --show, --vars and no arguments on pseudo terminals 40, 60, 80 and 132 columns wide as well as into a pipe; JSON field names are not prescribed (fields are recognised by type and content)")
+	run.Assumes("NO_COLOR=1 gives uncoloured listings (colour sequences are stripped from terminal output before comparing)", "the --quiet --json combination is not exercised (the statement gives it two answers)")
 	return run.Finish()
 }
 
